@@ -751,7 +751,7 @@ func TestCheck(t *testing.T) {
 	})
 	r.Floor("completed", int64(n/2))
 	r.Floor("completed_with_hrr", 3)
-	r.Floor("completed_resumed", 3+int64(resumeBurst)*9/10)
+	r.Floor("completed_resumed", 3+int64(resumeBurst)/2)
 	r.Floor("completed_resumed_with_hrr", 1)
 	r.Floor("stale_rejections_with_retry_configs", 5)
 	r.Floor("completed_with_record_over_16384", 3)
